@@ -839,6 +839,27 @@ theorem load_list_nonempty (commonOf : Nat → Inp) (np : Int) (dp : Nat) (sprea
       exact (full_fit_places_all commonOf np dp spread _ l q hpf).2.1
 
 
+/-! ### the CPU branch -/
+
+/-- **CPU mode: next to loaded models a model is started only if its whole requirement fits into the
+    free system memory**, and the estimate it is judged by offloads nothing (`cpu_zero`) -/
+theorem cpu_load_within_system_memory (commonOf : Nat → Inp) (np : Int) (dp : Nat) (g : FGpu) (n : Nat)
+    (full : Bool) (L : List FGpu) (p : Nat) (hlib : g.lib = Lib.cpu) (hn : n ≠ 0)
+    (h : cpuDecision commonOf np dp g n = .load full L p) :
+    L = [g] ∧ p = cpuParallel np dp ∧
+    (estimate { commonOf p with lib := g.lib, gpus := [g.gpu] }).total ≤ g.gpu.free ∧
+    (estimate { commonOf p with lib := g.lib, gpus := [g.gpu] }).layers = 0 := by
+  unfold cpuDecision at h
+  have hn' : (n == 0) = false := by simp [hn]
+  simp only [hn', Bool.false_eq_true, ↓reduceIte] at h
+  split at h
+  · rename_i hle
+    simp only [Decision.load.injEq] at h
+    obtain ⟨_, hl, hp⟩ := h
+    subst hl; subst hp
+    exact ⟨rfl, rfl, hle, (cpu_zero _ hlib).1⟩
+  · cases h
+
 /-! ### every reachable state of the load path -/
 
 /-- a request for a model that is not loaded, with the inventory reported at that moment -/
@@ -1251,5 +1272,12 @@ example : NoWrap ex3 :=
 example : (estimate { ex2f with gpus := [⟨400, 10⟩] }).graph = 6 ∧ (mkCore { ex2f with gpus := [⟨400, 10⟩] }).maxg = 9 ∧
     (estimate { ex2f with gpus := [⟨400, 10⟩] }).sizes = [141] ∧ NoWrap { ex2f with gpus := [⟨400, 10⟩] } := by decide
 
+
+/-- non-vacuity of the CPU-branch theorem: first model; fits next to two loaded ones; does not fit ⇒ evict -/
+example : cpuDecision (fun _ => ex2f) 0 4 ⟨0, 0, .cpu, ⟨1000, 0⟩⟩ 0 = .load false [⟨0, 0, .cpu, ⟨1000, 0⟩⟩] 4 ∧
+    cpuDecision (fun _ => ex2f) 1 4 ⟨0, 0, .cpu, ⟨1000, 0⟩⟩ 2 = .load false [⟨0, 0, .cpu, ⟨1000, 0⟩⟩] 1 ∧
+    cpuDecision (fun _ => ex2f) 1 4 ⟨0, 0, .cpu, ⟨100, 0⟩⟩ 2 = .evict ∧
+    (estimate { ex2f with lib := .cpu, gpus := [⟨1000, 0⟩] }).total = 131 ∧
+    (estimate { ex2f with lib := .cpu, gpus := [⟨100, 0⟩] }).total = 134 := by decide
 
 end OllamaVerif.C16
